@@ -542,3 +542,143 @@ Proof.
   apply in_combine_r in Hin. pose proof (in_combine_l _ _ _ _ Hin) as H1. pose proof (in_combine_r _ _ _ _ Hin) as H2.
   rewrite Forall_forall in Hc, Hm. split; [apply Hc, H1 | apply Hm, H2].
 Qed.
+
+(* ================================================================= operation ids: distinct method names outside F07a *)
+Lemma span_digits_app : forall d c r, forallb is_digit d = true -> is_digit c = false ->
+  span is_digit (d ++ c :: r) = (d, c :: r).
+Proof.
+  induction d as [|x d IH]; intros c r Hd Hc; simpl.
+  - rewrite Hc. reflexivity.
+  - simpl in Hd. apply andb_true_iff in Hd. destruct Hd as [Hx Hd]. rewrite Hx, IH by assumption. reflexivity.
+Qed.
+
+Lemma ends_us_digits_app : forall p d, forallb is_digit d = true -> d <> [] -> ends_us_digits (p ++ 95 :: d) = true.
+Proof.
+  intros p d Hd Hne. unfold ends_us_digits. rewrite rev_app_distr. simpl rev. rewrite <- app_assoc. simpl app.
+  rewrite span_digits_app; [| |reflexivity].
+  - destruct (rev d) eqn:E; [|reflexivity].
+    apply (f_equal (@rev N)) in E. rewrite rev_involutive in E. simpl in E. congruence.
+  - rewrite forallb_forall in *. intros x Hx. apply Hd, in_rev, Hx.
+Qed.
+
+Lemma tables_no_us_digits :
+  forallb (fun k => negb (ends_us_digits k)) keywords = true /\ forallb (fun k => negb (ends_us_digits k)) reserved_names = true.
+Proof. split; vm_compute; reflexivity. Qed.
+
+Lemma not_kw_res_us_digits : forall s, ends_us_digits s = true -> is_kw s || is_reserved s = false.
+Proof.
+  intros s H. apply orb_false_iff. split.
+  - apply (not_kw_of_table ends_us_digits); [apply tables_no_us_digits | exact H].
+  - destruct (is_reserved s) eqn:E; [|reflexivity]. apply mem_str_In in E.
+    destruct tables_no_us_digits as [_ Ht]. rewrite forallb_forall in Ht. specialize (Ht s E). rewrite H in Ht. discriminate.
+Qed.
+
+(* the method name of a renamed id: digit-prefixed core of the old id, "_", the counter *)
+Lemma method_name_app : forall id d, forallb is_digit d = true -> d <> [] ->
+  method_name (id ++ 95 :: d) = digit_pre (method_core id) ++ 95 :: d.
+Proof.
+  intros id d Hd Hne. unfold method_name, finish_snake. rewrite method_core_app by assumption.
+  assert (Hm1 : (if starts_digit (method_core id ++ (if has_core id then 95 :: d else d))
+                 then 95 :: method_core id ++ (if has_core id then 95 :: d else d)
+                 else method_core id ++ (if has_core id then 95 :: d else d))
+                = digit_pre (method_core id) ++ 95 :: d).
+  { destruct (has_core id) eqn:Eh.
+    - pose proof (method_core_has_core id Eh) as Hc. unfold digit_pre.
+      destruct (method_core id) as [|c m]; [congruence|]. simpl. destruct (is_digit c); reflexivity.
+    - rewrite (method_core_no_core id Eh). simpl app. unfold digit_pre. simpl.
+      destruct d as [|c d]; [congruence|]. simpl in Hd. apply andb_true_iff in Hd. destruct Hd as [Hc _].
+      simpl. rewrite Hc. reflexivity. }
+  rewrite Hm1. rewrite not_kw_res_us_digits by (apply ends_us_digits_app; assumption). reflexivity.
+Qed.
+
+Lemma method_name_as_pre : forall id, method_name id =
+  let q := digit_pre (method_core id) in if is_kw q || is_reserved q then q ++ [95] else q.
+Proof. reflexivity. Qed.
+
+Definition count_of (seen : list (str * N)) (m : str) : N := match alookup m seen with Some c => c | None => 0 end.
+
+(* shape of every derived method name after the pass, relative to the counter map it started from *)
+Definition out_shape (seen : list (str * N)) (n : str) : Prop :=
+  (ends_us_digits n = false /\ alookup n seen = None)
+  \/ (exists q k, n = q ++ 95 :: dec k
+        /\ count_of seen (if is_kw q || is_reserved q then q ++ [95] else q) < k).
+
+Lemma count_of_aset_same : forall seen m c, count_of (aset seen m c) m = c.
+Proof. intros. unfold count_of. rewrite alookup_aset_same. reflexivity. Qed.
+Lemma count_of_aset_other : forall seen m c m', m' <> m -> count_of (aset seen m c) m' = count_of seen m'.
+Proof. intros. unfold count_of. rewrite alookup_aset_other by assumption. reflexivity. Qed.
+
+Lemma out_shape_weaken : forall seen m c n,
+  count_of seen m <= c -> out_shape (aset seen m c) n -> n <> m -> out_shape seen n.
+Proof.
+  intros seen m c n Hle [[H1 H2]|[q [k [E Hk]]]] Hne.
+  - left. split; [exact H1|]. rewrite alookup_aset_other in H2 by exact Hne. exact H2.
+  - right. exists q, k. split; [exact E|].
+    assert (Hm' : forall m', count_of (aset seen m c) m' < k -> count_of seen m' < k).
+    { intros m' H. destruct (str_eq_dec m' m) as [Heq|Hd].
+      - subst m'. rewrite count_of_aset_same in H. lia.
+      - rewrite count_of_aset_other in H by exact Hd. exact H. }
+    apply Hm', Hk.
+Qed.
+
+Lemma dedup_ops_go_inv : forall ids seen,
+  guard_F07a ids = true ->
+  NoDup (map method_name (dedup_ops_go seen ids))
+  /\ Forall (out_shape seen) (map method_name (dedup_ops_go seen ids)).
+Proof.
+  induction ids as [|id r IH]; intros seen G; [split; constructor|].
+  unfold guard_F07a in G. cbn [forallb] in G. apply andb_true_iff in G. destruct G as [Gid Gr].
+  apply negb_true_iff in Gid. fold (guard_F07a r) in Gr.
+  cbn [dedup_ops_go]. set (m := method_name id) in *.
+  destruct (alookup m seen) as [c|] eqn:El.
+  - (* a repeated method name: the id is renamed *)
+    destruct (IH (aset seen m (c + 1)) Gr) as [Hnd Hsh].
+    cbn [map]. replace (id ++ [95] ++ dec (c + 1)) with (id ++ 95 :: dec (c + 1)) by reflexivity.
+    rewrite method_name_app by (apply dec_digits || apply dec_nonempty).
+    set (q := digit_pre (method_core id)).
+    assert (Hmq : m = if is_kw q || is_reserved q then q ++ [95] else q) by (subst m q; apply method_name_as_pre).
+    set (n0 := q ++ 95 :: dec (c + 1)).
+    assert (Hn0 : ends_us_digits n0 = true) by (apply ends_us_digits_app; [apply dec_digits | apply dec_nonempty]).
+    assert (Hcnt : count_of seen m = c) by (unfold count_of; rewrite El; reflexivity).
+    split.
+    + constructor; [|exact Hnd]. intro Hin. rewrite Forall_forall in Hsh.
+      destruct (Hsh n0 Hin) as [[H1 _]|[q' [k [E Hk]]]]; [congruence|].
+      subst n0. apply app_inv_us_digits in E; [|apply dec_digits | apply dec_digits].
+      destruct E as [Eq Ek]. apply dec_inj in Ek. subst q' k. rewrite <- Hmq in Hk.
+      rewrite count_of_aset_same in Hk. lia.
+    + constructor.
+      * right. exists q, (c + 1). split; [reflexivity|]. rewrite <- Hmq, Hcnt. lia.
+      * rewrite Forall_forall in *. intros n Hn. apply (out_shape_weaken seen m (c + 1)); [lia | apply Hsh, Hn|].
+        intro E. subst n. destruct (Hsh m Hn) as [[_ H2]|[q' [k [E Hk]]]].
+        -- rewrite alookup_aset_same in H2. discriminate.
+        -- assert (Hm : ends_us_digits m = true) by (rewrite E; apply ends_us_digits_app; [apply dec_digits | apply dec_nonempty]).
+           congruence.
+  - (* first occurrence: the id is kept *)
+    destruct (IH (aset seen m 1) Gr) as [Hnd Hsh].
+    cbn [map]. fold m. split.
+    + constructor; [|exact Hnd]. intro Hin. rewrite Forall_forall in Hsh.
+      destruct (Hsh m Hin) as [[_ H2]|[q' [k [E Hk]]]].
+      * rewrite alookup_aset_same in H2. discriminate.
+      * assert (Hm : ends_us_digits m = true) by (rewrite E; apply ends_us_digits_app; [apply dec_digits | apply dec_nonempty]).
+        congruence.
+    + constructor.
+      * left. split; [exact Gid | exact El].
+      * rewrite Forall_forall in *. intros n Hn. apply (out_shape_weaken seen m 1); [unfold count_of; rewrite El; lia | apply Hsh, Hn|].
+        intro E. subst n. destruct (Hsh m Hn) as [[_ H2]|[q' [k [E Hk]]]].
+        -- rewrite alookup_aset_same in H2. discriminate.
+        -- assert (Hm : ends_us_digits m = true) by (rewrite E; apply ends_us_digits_app; [apply dec_digits | apply dec_nonempty]).
+           congruence.
+Qed.
+
+(* F07a excluded: when no derived method name already looks like "x_<digits>", one pass makes all method names of
+   the client pairwise distinct — for ANY number of operations and ANY ids — and a second pass changes nothing. *)
+Theorem dedup_ops_nodup_partial : forall ids, guard_F07a ids = true ->
+  NoDup (map method_name (dedup_ops ids)) /\ dedup_ops (dedup_ops ids) = dedup_ops ids.
+Proof.
+  intros ids G. destruct (dedup_ops_go_inv ids [] G) as [H _]. split; [exact H|].
+  apply dedup_ops_idempotent_partial, H.
+Qed.
+
+Definition w_ops_ok : list str := [[102;111;111]; [70;111;111]; [102;111;111]; [99;108;97;115;115]; [99;108;97;115;115]].
+Lemma guard_F07a_nonvacuous : guard_F07a w_ops_ok = true /\ dedup_ops w_ops_ok <> w_ops_ok.
+Proof. split; vm_compute; [reflexivity | discriminate]. Qed.
